@@ -1423,15 +1423,18 @@ class Harden(EnvironmentFilter):
             elif not context_materialized and is_sparse_context:
                 new['context'] = new['context'].copy()
 
+            #only lazy actions are hardened: an action set may mix them with plain values (e.g., a tuple or a string)
+            #and reward functions are keyed on those values as they are
             if not actions_materialized and is_dense_actions:
-                new['actions'] = list(map(list,new['actions']))
+                new['actions'] = [a if primitives.is_materialized(a) else list(a) for a in new['actions']]
             elif not actions_materialized and is_sparse_actions:
-                new['actions'] = list(map(methodcaller('copy'),new['actions']))
+                new['actions'] = [a if primitives.is_materialized(a) else a.copy() for a in new['actions']]
 
-            if not action_materialized and is_dense_action:
-                new['action'] = list(new['action'])
-            elif not action_materialized and is_sparse_action:
-                new['action'] = new['action'].copy()
+            if not action_materialized and not primitives.is_materialized(new['action']):
+                if is_dense_action:
+                    new['action'] = list(new['action'])
+                elif is_sparse_action:
+                    new['action'] = new['action'].copy()
 
             yield new
 
